@@ -335,7 +335,7 @@ macro_rules! lemma_c {
 // Short variant: rich set of (tail_len, n) classes -- see DESIGN.md for the path classes
 //@ h=s_short_4_0 props=C01,C03 cfgs=K0 tier=q t=300 | funcs: inner::Generator<Short>::update | bound: tail_len0=4, piece of 0 bytes, len=1000 concrete; contents symbolic | stubs: tlsh_b_mapping_48/256 (logging, arbitrary return), FuzzyHashBucketsData::increment (logging)
 lemma_s!(s_short_4_0, GShort, sym_short, 1, 48, T_M48, 4, 0);
-//@ h=s_short_4_1 props=C01,C03,C11 cfgs=K0,K1 tier=q t=300 | funcs: inner::Generator<Short>::update | bound: tail_len0=4, piece of 1 byte (the inductive step) | stubs: mapping + increment logging stubs
+//@ h=s_short_4_1 props=C01,C03,C11,C07,C17 cfgs=K0,K1,K3,K10 tier=q t=300 | funcs: inner::Generator<Short>::update | bound: tail_len0=4, piece of 1 byte (the inductive step) | stubs: mapping + increment logging stubs
 lemma_s!(s_short_4_1, GShort, sym_short, 1, 48, T_M48, 4, 1);
 //@ h=s_short_4_3 props=C01,C03 cfgs=K0 tier=q t=300 | funcs: inner::Generator<Short>::update | bound: tail_len0=4, 3 bytes (partial tail rewrite) | stubs: mapping + increment logging stubs
 lemma_s!(s_short_4_3, GShort, sym_short, 1, 48, T_M48, 4, 3);
@@ -368,7 +368,7 @@ lemma_s!(s_short_3_2, GShort, sym_short, 1, 48, T_M48, 3, 2);
 //@ h=s_short_3_6 props=C01,C03 cfgs=K0 tier=q t=400 | funcs: inner::Generator<Short>::update | bound: tail_len0=3, 6 bytes | stubs: mapping + increment logging stubs
 lemma_s!(s_short_3_6, GShort, sym_short, 1, 48, T_M48, 3, 6);
 // other variants: the step and one crossing each (3-byte checksum chain, 256 mapper)
-//@ h=s_normal_4_1 props=C01,C03 cfgs=K0 tier=q t=300 | funcs: inner::Generator<Normal>::update | bound: tail_len0=4, 1 byte | stubs: mapping + increment logging stubs
+//@ h=s_normal_4_1 props=C01,C03,C07 cfgs=K0,K3 tier=q t=300 | funcs: inner::Generator<Normal>::update | bound: tail_len0=4, 1 byte | stubs: mapping + increment logging stubs
 lemma_s!(s_normal_4_1, GNormal, sym_normal, 1, 128, T_M256, 4, 1);
 //@ h=s_normal_3_3 props=C01,C03 cfgs=K0 tier=q t=300 | funcs: inner::Generator<Normal>::update | bound: tail_len0=3, 3 bytes | stubs: mapping + increment logging stubs
 lemma_s!(s_normal_3_3, GNormal, sym_normal, 1, 128, T_M256, 3, 3);
@@ -761,7 +761,7 @@ fn ref_qratio_f32(q: u32, q3: u32) -> u8 {
     ((quo as u32) % 16) as u8
 }
 
-//@ h=f_short_main props=C01,C10,C11,C15,C03 cfgs=K1 tier=q t=900 | funcs: inner::Generator<Short>::finalize_with_options, processed_len, DataLengthValidity, naive aggregate_48, FuzzyHash::from_raw | bound: ALL states: 48 symbolic u32 counters (incl. >=2^24, >=2^31), symbolic len (full u32) and tail_len<=4, symbolic checksum, all 32 option settings; gates in order, checksum, length code and body checked, state unchanged by finalize; Q-ratio value not checked here | stubs: <[u32]>::select_nth_unstable -> order statistic of the ghost copy defined by counting (+ explicit monotonicity); FuzzyHashLengthEncoding::new -> its contract (proved by c09_new_total/c09_code_def)
+//@ h=f_short_main props=C01,C10,C11,C15,C03,C07,C17 cfgs=K1,K3 tier=q t=900 | funcs: inner::Generator<Short>::finalize_with_options, processed_len, DataLengthValidity, naive aggregate_48, FuzzyHash::from_raw | bound: ALL states: 48 symbolic u32 counters (incl. >=2^24, >=2^31), symbolic len (full u32) and tail_len<=4, symbolic checksum, all 32 option settings; gates in order, checksum, length code and body checked, state unchanged by finalize; Q-ratio value not checked here | stubs: <[u32]>::select_nth_unstable -> order statistic of the ghost copy defined by counting (+ explicit monotonicity); FuzzyHashLengthEncoding::new -> its contract (proved by c09_new_total/c09_code_def)
 lemma_f!(f_short_main, GShort, sym_short, 48, 12, None::<u32>, false, 52, 7, false);
 //@ h=f_normal_main props=C01,C10,C11,C15,C03 cfgs=K1 tier=q t=1500 | funcs: inner::Generator<Normal>::finalize_with_options, naive aggregate_128 | bound: as f_short_main with 128 counters, but the three quartiles are ANY q1<=q2<=q3 (superset of the real order statistics; the honest order-statistic model is used on the 48-counter instance of the same generic code) | stubs: select_nth_unstable order-statistic model; FuzzyHashLengthEncoding::new contract
 lemma_f!(f_normal_main, GNormal, sym_normal, 128, 32, None::<u32>, false, 132, 7, true);
